@@ -168,6 +168,8 @@ theorem createNextState_hhn (env : Env) (s : State) (txs : List Tx) (rel : Relev
   rotate_left
   · exact ⟨rfl, rfl, rfl⟩
   intro b tx b' hb hf
+  split at hf
+  · cases hf
   obtain ⟨st1, h1, hf⟩ := Outcome.bind_eq_ok hf
   obtain ⟨coins2, _, hf⟩ := Outcome.bind_eq_ok hf
   obtain ⟨minFee, _, hf⟩ := Outcome.bind_eq_ok hf
